@@ -53,6 +53,76 @@ CHECKS = {
             'Im K = 0 end-to-end because the solver takes a real K (H_K is checked through dk/dK and at formula level with a complex K); natural '
             'grids carry a first-order interface-gap term (C03 grid convention) that is part of the tolerance; only gate-admitted cases are asserted; '
             'only static liquid layers; nothing is claimed off the grid.', 'DESIGN.md section 2, C05 and section 8'),
+    'C07': ('exploration', 'E1-lattice',
+            'exhaustive grid (all models x entry points x guard branch points with one-ulp neighbours x thread counts) on the real code '
+            'vs 50-digit mpmath compliance laws; entry-point bit identity',
+            'Every compiled rheology class, every find_rheology alias, both array helpers at lengths 1..1000 under 1/2/16 OpenMP threads, and every '
+            'legacy compliance function are run on the full stated grid (40 frequencies incl. all guard branch points and one-ulp neighbours, 8 '
+            'rigidities, 6 viscosities, 171 parameter sets). All values equal 1/J of the published law to 1e-12 (measured 7e-16), are passive, bounded and '
+            'monotone for the Maxwell family, and are bit-identical across entry points.',
+            'Grid points only; guarded branches are held to the documented limits; legacy functions compared outside their float_eps guards and for '
+            'omega > 0; zeta(omega) of the *_freq variants taken from docstring + source; OpenMP schedules are not controlled (thread counts are enumerated).',
+            'DESIGN.md section 2, C07 and section 8'),
+    'C08': ('exploration', 'E4-exact',
+            'complete enumeration: the real table source is executed on exact truncated power-series arguments and every coefficient is '
+            'compared with an exact rational Hansen reference (Laurent-series integration)',
+            'Every shipped eccentricity table function (61), every (p,q) present and every Taylor coefficient up to e^N (closed forms to e^30) is compared '
+            'with exact rational G_lpq^2 from an independent reference; every absent mode with |q| <= N/2+3 is shown not to contribute; the compiled '
+            'dispatchers and all 61 multi-degree look-ups are compared key by key and value by value. The coefficient space is finite and enumerated '
+            'completely (exhaustive: true).',
+            'Literals accepted within 1e-12 relative; closed forms compared through e^30; compiled path checked at 3 eccentricities; the placeholder '
+            'eccentricity_truncations[22][l>2] (unreferenced, source FIXME) is excluded.', 'DESIGN.md section 2, C08 and section 8'),
+    'C09': ('exploration', 'E4-exact',
+            'complete enumeration: trig-polynomial identity on 1024 equispaced nodes (degree <= 28 established from the source AST) vs exact-rational Kaula F_lmp',
+            'All 199 on-table entries (l=2..7), through the Python source and the compiled code on 1024 equispaced nodes of I/2, are compared with '
+            'exact-rational Kaula F^2 with a DFT degree bound, so node agreement is identity for all I; off-tables are checked against exact F^2(0) '
+            'including all omitted entries, the look-ups key by key, the universal coefficients against Fractions.',
+            'Float tolerance 2e-11 of sum|a_k| (pristine worst 1.4e-12); if the AST form cannot be established the run reports exhaustive=false.',
+            'DESIGN.md section 2, C09 and section 8'),
+    'C14': ('exploration', 'E1-lattice',
+            'exhaustive lattice of the 8 shipped potentials x all modes x parameters on the real code; spectral differentiation on an '
+            'interior-colatitude basis (complete in the angles), exact Kepler point-mass reference per Fourier mode, order ratio tests',
+            'All lattice cases (980 quick / 2856 thorough) of the 8 shipped potentials x all modes x spin/n, e, obliquity, use_static are executed. Every mode is '
+            'verified to be a degree-2 trigonometric polynomial on 17x17 interior nodes, so derivative and Laplace agreement hold for all angles; each '
+            'mode and total is compared with the exact degree-2 potential of a point mass on a Kepler orbit up to its truncation order with calibrated '
+            'constants; reductions between variants are checked exactly or by order ratio tests. Known defects are classified by closed-form signature.',
+            'Continuous parameters on the lattice only; sign / normalisation conventions as listed in ASSUMPTIONS; truncation constants calibrated at 10x margin, not derived.',
+            'DESIGN.md section 2, C14 and section 8'),
+    'C15': ('exploration', 'E1-lattice',
+            'exhaustive lattice (radial functions x moduli x degree x all Y_lm and shipped potential modes x distinct-axis grids) on the real '
+            'code vs an independent strain-from-displacement reference, Hooke law, tractions and heating closed forms',
+            '741 (quick 285) cases: three real radial_solver outputs plus synthetic complex / real / power-law radial functions x 6 moduli profiles x l in {2,3} x '
+            'all Y_lm cos/sin and every mode of the 8 shipped potentials, on grids with distinct axis lengths; strain, stress, tractions, heating and '
+            'displacements are compared component-wise with a plain-numpy reference at 1e-12 on natural scales (measured 3e-15).',
+            'Solid material only (the function divides by mu); heating returns |Im(sigma : conj eps)| without a frequency factor (x omega/2 is the caller\'s job).',
+            'DESIGN.md section 2, C15 and section 8'),
+    'C19': ('exploration', 'E1-lattice',
+            'exhaustive branch-point grids (every guard constant with one-ulp neighbours) on the real code; adjacent-pair monotonicity, mpmath closed forms, table splitting',
+            'All radiogenic, cooling, viscosity and partial-melt functions are run on grids containing every guard constant and its one-ulp neighbours, scalar '
+            'and array; each clause of the statement (additivity by splitting isotope tables, linearity, half-life, reference value, positivity, '
+            'monotonicity in contrast / viscosity / temperature / melt fraction, convection >= conduction, liquid floors, Henning end members) has its own oracle.',
+            'Grids only; arrhenius with linear-T prefactor admitted only for E* >= R T_max; Henning rigidity inside the window and fixed(half-life=0) are not asserted.',
+            'DESIGN.md section 2, C19 and section 8'),
+    'C02': ('exploration', 'E1-lattice',
+            'exhaustive enumeration of all solid-top layer stacks (1-4 layers, reduced alphabet for 5) on the real radial solver; closed-form surface '
+            'conditions, slice-to-slice interface relations, joint-vs-single-solve metamorphic relation',
+            'Every solid-top layer stack of 1-4 layers over {solid,liquid}x{static,dynamic}x{compressible,incompressible} (plus all 5-layer stacks over '
+            '{solid,liquid}x{static,dynamic}) x l{2,3} x 2 material profiles x omega{1e-3,1e-4} (x nondimensionalize and Kamata/Takeuchi for <= 3 layers) is solved '
+            'for all solve_for combinations (<= 2 layers) or joint plus single types (deeper). Every admitted solution satisfies the requested surface '
+            'condition to 1e-7 of the natural row scale (measured <= 4e-11), is continuous across every interface in the components both sides define, has '
+            'y4 = 0 on the solid side of every solid/liquid interface, NaN exactly in undefined components, and each type block is bit-identical to its '
+            'single-type solve.',
+            'Solid-top stacks only (a dynamic-liquid top kills the interpreter, known C06 finding); stacks the starting driver refuses are inadmissible; only '
+            'solves that succeed and pass the rtol/100 gate are asserted (58 %; dynamic liquids at omega=1e-4 are mostly removed); physical values on the menu only.',
+            'DESIGN.md section 2, C02 and section 8'),
+    'C03': ('exploration', 'E1-lattice',
+            'exhaustive lattice of metamorphic relations between pairs / triples of real solver runs (planet x degree x frequency x transformation)',
+            'For 2 profiles x 5 planets x l{2,3,4} x omega{1e-5,1e-4,1e-3}, every gate-admitted pair of real runs related by non-dimensionalisation, exact '
+            'rescaling a in {1e-2..1e2}, solve_for alone/superset/permutation (bit-identical), integrator, further tolerance tightening, tight-grid refinement or '
+            'Kamata<->Takeuchi start gives equal k,h,l within 1e-5 (grid 3e-4), and k_load = k_tidal - h_tidal to 1e-5 (measured <= 7.4e-7). Natural-grid '
+            'refinement re-derives the first-order interface-gap defect of solver.pyx (known finding with a quantitative classifier).',
+            'Only numerically converged solves (stable under rtol/100 to 1e-6); the dynamic-liquid planet at omega=1e-3 only; Kamata<->Takeuchi only for static '
+            'compressible cores; values on the menu only; not exhaustive over structures.', 'DESIGN.md section 2, C03 and section 8'),
 }
 
 NOT_APPLICABLE = {}
